@@ -26,7 +26,7 @@ static long case_cnt[16], op_cnt[32];
 static int mismatch_printed;
 
 static char const *opname[] = {"?", "push_back", "push_fore", "insert", "pull_back", "pull_fore", "remove", "store", "erase", "setn", "setm",
-                               "setz", "sort", "sort_fore", "sort_back", "push_sort", "search", "at", "of", "top", "create", "walk"};
+                               "setz", "sort", "sort_fore", "sort_back", "push_sort", "search", "at", "of", "top", "create", "walk", "push", "pull"};
 
 /* element types for the typed traversal macros (one per element size the models use) */
 typedef struct { a_byte b[1]; } elem1;
@@ -443,7 +443,7 @@ int main(int argc, char **argv)
     printf("SUMMARY {\"edges\":%ld,\"events\":%ld,\"mismatch\":%ld,\"drift\":%ld,\"nontrivial\":%ld,\"cases\":[", n_edges, n_events, n_mismatch, n_drift, n_nontrivial);
     for (int i = 0; i < 8; ++i) { printf(i ? ",%ld" : "%ld", case_cnt[i]); }
     printf("],\"ops\":[");
-    for (int i = 0; i < 22; ++i) { printf(i ? ",%ld" : "%ld", op_cnt[i]); }
+    for (int i = 0; i < 24; ++i) { printf(i ? ",%ld" : "%ld", op_cnt[i]); }
     printf("]}\n");
     return 0;
 }
